@@ -11129,12 +11129,14 @@ impl SctpTransport {
         i.forward_tsn_pending.store(false, Ordering::SeqCst);
         i.forward_tsn_streams.lock().clear();
         i.update_advanced_peer_ack_point();
+        let pairs = i.forward_tsn_streams.lock().clone();
+        let chunk = i.create_forward_tsn_chunk();
         (
             i.advanced_peer_ack_tsn.load(Ordering::SeqCst),
             i.forward_tsn_pending.load(Ordering::SeqCst),
-            i.forward_tsn_streams.lock().clone(),
+            pairs,
             i.flight_size.load(Ordering::SeqCst),
-            i.create_forward_tsn_chunk(),
+            chunk,
         )
     }
 }
